@@ -168,7 +168,7 @@ class Interp:
             return True
         if isinstance(v, Ext):
             return v.truthy
-        if isinstance(v, Opaque):
+        if isinstance(v, Opaque) or getattr(v, 'np_array', False):
             raise OutOfSubset('truth value of %r' % (v,))
         return True
 
@@ -314,6 +314,9 @@ class Interp:
 
     def inplace(self, op, cur, val):
         # in-place mutation for mutable sequences (identity is kept)
+        if getattr(cur, 'np_array', False):     # numpy arrays: `a *= s` mutates a (numpy_model.py)
+            from . import numpy_model
+            return numpy_model.inplace(self, op, cur, val)
         if op == '+' and isinstance(cur, (PList, PBytearray)):
             self.models.seq_extend(self, cur, val)
             return cur
@@ -680,6 +683,8 @@ class Interp:
     def get_iter(self, v):
         if isinstance(v, GenIter):
             return v
+        if type(v).__name__ == 'NDArray':       # numpy arrays (numpy_model.py): read live; rows of a matrix
+            return v.iterator(self)
         if isinstance(v, (PList, PBytearray)):
             st = {'i': 0}
 
